@@ -4146,12 +4146,13 @@ let reduce_normalized_coefficients_to_difficulty k d n normalized_coefficients =
     ops -> car -> car -> car list -> car list **)
 
 let extract_normalized_coefficients_from_difficulty k d n difficulty_coefficients =
-  imap (fun j gamma ->
-    k.odiv gamma
-      (k.omul
-        (k.omul (fzpow k n (Z.of_nat j))
-          (fzpow k (fz k (Zpos (XO XH))) (Z.sub (Z.of_nat j) (Zpos XH)))) d))
-    difficulty_coefficients
+  set0 k
+    (imap (fun j gamma ->
+      k.odiv gamma
+        (k.omul
+          (k.omul (fzpow k n (Z.of_nat j))
+            (fzpow k (fz k (Zpos (XO XH))) (Z.sub (Z.of_nat j) (Zpos XH)))) d))
+      difficulty_coefficients) difficulty_coefficients
 
 (** val reduce_normalized_convection_scale_to_difficulty :
     ops -> car -> car -> car -> car -> car **)
